@@ -148,6 +148,12 @@ func (f *decompressor) step() (err error) {
 
 	if isError(err) || (err == errEndInput && f.eof) {
 		discardSize := f.peekSize - len(f.state.input) - int(state.bitsLen/8)
+		if discardSize > f.peekSize {
+			// the header parser can reject a block after looking past the end of its input
+			// (negative bit count): never discard more than was peeked, or Discard's own
+			// io.EOF would be returned instead of the decoder's verdict
+			discardSize = f.peekSize
+		}
 		if discardSize > 0 {
 			_, err := f.rBuf.Discard(discardSize)
 			if err != nil {
